@@ -286,7 +286,11 @@ func (r *Run) RecordFailure(kind string, c any, source string, msg string) {
 	}
 	ff := FailFile{Property: r.ID, Kind: kind, Message: msg, Case: raw, Source: source}
 	b, _ := json.MarshalIndent(ff, "", " ")
-	os.WriteFile(r.failPath(), b, 0o644)
+	// atomically: vcheck stops the other shards as soon as one fail file exists, a shard may be killed mid-write
+	tmp := r.failPath() + ".tmp"
+	if os.WriteFile(tmp, b, 0o644) == nil {
+		os.Rename(tmp, r.failPath())
+	}
 	r.mu.Lock()
 	r.failing = true
 	if len(r.violations) < 5 {
